@@ -198,6 +198,45 @@ def r1_r2_structure(ctx, rust: RustOps) -> None:
                   f"{op} (tag {child_tags}) is created as a child of {pcls}, whose allowed children are {[rust.flags[p]['allowed_children'] for p in parents if p in rust.flags]} "
                   "(hugr-core/src/ops/validate.rs): the validator rejects this parent/child pair", call, detail=f"{child_tags} under {parents}")
     ctx.stats["C01.R2 creation sites / unresolved"] = [len(sites), unresolved]
+    # an optional `parent` parameter is defaulted (to the builder's container / the root) before it is handed on as a parent: left as
+    # None it would make the callee fall back on ITS default -- the HUGR root -- whatever container the builder is working in
+    PARENT_AT = {"add_node": 1, "add_const": 1, "_add_node": 1, "new_nested": 2, "add_alias_defn": 2, "add_alias_decl": 2}
+    n_par = 0
+    for mn, m in prog.modules.items():
+        if not mn.startswith("hugr.build"):
+            continue
+        for c in m.classes.values():
+            for name, fn_o in c.methods.items():
+                a = fn_o.args
+                pos = a.posonlyargs + a.args
+                optional = {p_.arg for p_, d_ in zip(pos[len(pos) - len(a.defaults):], a.defaults) if isinstance(d_, ast.Constant) and d_.value is None}
+                optional |= {p_.arg for p_, d_ in zip(a.kwonlyargs, a.kw_defaults) if isinstance(d_, ast.Constant) and d_.value is None}
+                if not optional:
+                    continue
+                cf = ctx.cfn(f"{c.qualname}.{name}", subst=False)
+                for call in calls_in(cf):
+                    cn = call_name(call)
+                    if cn not in PARENT_AT:
+                        continue
+                    par = kwarg(call, "parent", PARENT_AT[cn])
+                    if par is None:
+                        continue
+                    n_par += 1
+                    # (the same method of the base class taking the same optional parameter passes it through: it defaults there)
+                    passthrough = isinstance(call.func, ast.Attribute) and isinstance(call.func.value, ast.Call) and u(call.func.value.func) == "super"
+                    bad = isinstance(par, ast.Name) and par.id in optional and not passthrough and not _rebound_before(cf, call, par.id)
+                    # a definition-level helper that documents "defaults to the root" hands its optional parent to Hugr.add_node, which defaults
+                    # there: only builders that HAVE a container of their own must not
+                    own_container = any(k_.name == "ParentBuilder" or "parent_node" in {f.name for f in k_.fields} for k_ in c.mro)
+                    uses_container = any(isinstance(x, ast.Attribute) and x.attr == "parent_node" and u(x.value) == "self" for x in ast.walk(fn_o)) or \
+                        any(isinstance(x, ast.Attribute) and x.attr == "parent_node" and u(x.value) == "self" for x in ast.walk(cf))
+                    if bad and own_container and (uses_container or name in ("load",)):
+                        ctx.fail("C01.R2", f"{mn.split('.', 1)[1]}.{c.name}.{name}: {cn} under an undefaulted optional parent", m.path, call.lineno,
+                                 f"`{par.id}` is an optional parameter handed to {cn} as it came: when the caller leaves it out the node is created under the HUGR "
+                                 "root (the callee's default), not in the container this builder is building -- e.g. a Const directly under a CFG or Conditional", call)
+                    else:
+                        ctx.ok("C01.R2", f"{mn.split('.', 1)[1]}.{c.name}.{name}: {cn} parent", "optional parent defaulted before use / passed through")
+    ctx.stats["C01.R2 optional parents handed on"] = n_par
     # add_op takes a DataflowOp, load/call create LoadConst / Call under the dataflow parent
     ao = df.methods["add_op"]
     ann = u(ao.args.posonlyargs[1].annotation) if len(ao.args.posonlyargs) > 1 else (u(ao.args.args[1].annotation) if len(ao.args.args) > 1 else "")
@@ -423,6 +462,25 @@ def r6_function_boundary(ctx, rule="C01.R6") -> None:
               "to the function node, but the validator forbids value edges into a function body (ValueEdgeIntoFunc). The walk must stop "
               "(return None -> NoSiblingAncestor) when the parent it would climb past is a FuncDefn, and only after the sibling test", fn,
               detail="sibling test, then function-boundary test, then climb", found="; ".join(it.describe() for it in sl.iters)[:400])
+
+
+def _rebound_before(fn, call, name: str) -> bool:
+    """is `name` assigned by a statement that comes before the one holding `call`, in its block or an enclosing one"""
+    def search(block):
+        for i, st in enumerate(block):
+            if any(n is call for n in ast.walk(st)):
+                if any(isinstance(x, ast.Name) and x.id == name and isinstance(x.ctx, ast.Store) for b_ in block[:i] for x in ast.walk(b_)):
+                    return True
+                for fld in ("body", "orelse", "finalbody"):
+                    bb = getattr(st, fld, None)
+                    if isinstance(bb, list) and bb and isinstance(bb[0], ast.stmt) and any(n is call for b_ in bb for n in ast.walk(b_)):
+                        return search(bb)
+                for h in getattr(st, "handlers", []):
+                    if any(n is call for b_ in h.body for n in ast.walk(b_)):
+                        return search(h.body)
+                return False
+        return False
+    return search(fn.body)
 
 
 def run(ctx) -> None:
